@@ -309,7 +309,7 @@ def reference_verdict(header, cfg):
 GHOSTS = ['ghost', 'None', 'nobody', 'root']
 PASSWORDS = ['secret', '', 'None', 'pässwörd✓', 'p:w:x', 'a b', 'hunter2', 'x"y', 'café']
 USERNAMES = ['admin', 'bob', 'Alice Smith', 'a,b', 'u=1', 'None', 'x.y-z']
-REALMS = ['Test', 'my realm', 'r', 'Realm, with comma', 'a=b']
+REALMS = ['Test', 'my realm', 'r', 'Realm, with comma', 'a=b', '']      # '' : a configured realm that is falsy
 METHODS = ['GET', 'GET', 'POST', 'PUT', 'DELETE', 'HEAD']
 OTHER_HEADERS = ['Bearer abc', 'Negotiate YWJj', 'Basic', 'Digest', 'Digest ,', 'Digest username', '', 'Basic  ',
                  'NTLM', 'Digest =', 'Digest username=', 'Digest ="x"', 'basic:YWRtaW46c2VjcmV0', '"Basic" YWRtaW46c2VjcmV0',
